@@ -170,6 +170,88 @@ type Wire struct {
 	// Gate, if set, is called (outside the wire lock) before a message is processed;
 	// it may block to order messages across several wires.
 	Gate func(dir Dir, idx int, msg []byte)
+
+	// Hold/Release: message-level scheduling. A message (dir, idx) for which
+	// holds[dir][idx] is set parks in the sender's Write until released.
+	holds   [2]map[int]chan struct{}
+	parked  [2]map[int]bool
+	holdAll [2]bool
+}
+
+// Hold makes message idx of direction d park at the wire until Release.
+func (w *Wire) Hold(d Dir, idx int) {
+	w.mu.Lock()
+	defer w.mu.Unlock()
+	if w.holds[d] == nil {
+		w.holds[d] = map[int]chan struct{}{}
+		w.parked[d] = map[int]bool{}
+	}
+	if _, ok := w.holds[d][idx]; !ok {
+		w.holds[d][idx] = make(chan struct{})
+	}
+}
+
+// Release lets a held message continue.
+func (w *Wire) Release(d Dir, idx int) {
+	w.mu.Lock()
+	ch := w.holds[d][idx]
+	delete(w.holds[d], idx)
+	w.mu.Unlock()
+	if ch != nil {
+		close(ch)
+	}
+}
+
+// ReleaseAll releases every hold.
+func (w *Wire) ReleaseAll() {
+	for d := AtoB; d <= BtoA; d++ {
+		w.mu.Lock()
+		var idxs []int
+		for i := range w.holds[d] {
+			idxs = append(idxs, i)
+		}
+		w.mu.Unlock()
+		for _, i := range idxs {
+			w.Release(d, i)
+		}
+	}
+}
+
+// Parked reports whether message idx of direction d is currently parked.
+func (w *Wire) Parked(d Dir, idx int) bool {
+	w.mu.Lock()
+	defer w.mu.Unlock()
+	return w.parked[d][idx]
+}
+
+// AnyParked reports whether any message is parked at the wire.
+func (w *Wire) AnyParked() bool {
+	w.mu.Lock()
+	defer w.mu.Unlock()
+	for d := 0; d < 2; d++ {
+		for _, v := range w.parked[d] {
+			if v {
+				return true
+			}
+		}
+	}
+	return false
+}
+
+func (w *Wire) waitHold(d Dir, idx int) {
+	w.mu.Lock()
+	ch := w.holds[d][idx]
+	if ch != nil {
+		w.parked[d][idx] = true
+	}
+	w.mu.Unlock()
+	if ch == nil {
+		return
+	}
+	<-ch
+	w.mu.Lock()
+	w.parked[d][idx] = false
+	w.mu.Unlock()
 }
 
 // New creates a wire.
@@ -217,6 +299,7 @@ func (w *Wire) onWrite(d Dir, b []byte) error {
 		if gate != nil {
 			gate(d, idx, msg)
 		}
+		w.waitHold(d, idx)
 		w.mu.Lock()
 		plan := w.Plan
 		w.mu.Unlock()
@@ -357,14 +440,14 @@ func Handshake(w *Wire, a, b *Router, watchdog time.Duration) (ra, rb SetupResul
 		mu.Lock()
 		aDone, bDone := ra.Done, rb.Done
 		mu.Unlock()
-		stuck := (aDone || w.pa.idle()) && (bDone || w.pb.idle()) && !(aDone && bDone)
+		stuck := (aDone || w.pa.idle()) && (bDone || w.pb.idle()) && !(aDone && bDone) && !w.AnyParked()
 		if stuck {
 			// re-check after a grace period: idle must persist
 			time.Sleep(5 * time.Millisecond)
 			mu.Lock()
 			aDone, bDone = ra.Done, rb.Done
 			mu.Unlock()
-			if (aDone || w.pa.idle()) && (bDone || w.pb.idle()) && !(aDone && bDone) {
+			if (aDone || w.pa.idle()) && (bDone || w.pb.idle()) && !(aDone && bDone) && !w.AnyParked() {
 				w.A.Close()
 				w.B.Close()
 			}
